@@ -79,6 +79,45 @@ def drive_dispatch(rec, names):
     rec.data["events"] = events
 
 
+def drive_big_prepare(rec, quick):
+    """a prepared matrix of 16 MiB and more (N x rows x columns >= 2^21), at an address that is not 32-byte aligned: the accelerated
+    and the portable vmp_prepare_contiguous write the same bytes, and the product of a unit vector returns the matrix row"""
+    import numpy as np
+    from lib import Buf
+    rng = random.Random(rec.seed + 77)
+    L = Lib.get()
+    ok = 0
+    for (n, nrows, ncols) in ([(4096, 32, 16)] if quick else [(4096, 32, 16), (65536, 8, 5), (1024, 64, 33)]):
+        g = np.random.default_rng(rec.seed + n)
+        M = Buf(8 * n * nrows * ncols, fill=0x3C)
+        M.i64[:] = g.integers(-(1 << 20), 1 << 20, n * nrows * ncols, dtype=np.int64)
+        out = {}
+        for mask in (MASK_NONE, MASK_GENERIC):
+            mod = L.module(n, FFT64, mask)
+            L.set_cpu_mask(MASK_NONE)
+            for off in (16, 0):
+                label = "vmp_prepare_contiguous N=%d %dx%d mask=%d prepared matrix at +%d" % (n, nrows, ncols, mask, off)
+                if not rec.progress(label):
+                    continue
+                pm = Buf(L.call("bytes_of_vmp_pmat", mod, nrows, ncols), off=off, fill=0xEE)
+                t1 = Buf(L.call("vmp_prepare_contiguous_tmp_bytes", mod, nrows, ncols), off=rng.choice([0, 8]), fill=0xEE)
+                L.call("vmp_prepare_contiguous", mod, pm, M, nrows, ncols, t1)
+                rec.case(("big-prepare", n, mask, off))
+                if not (pm.canaries_ok() and t1.canaries_ok() and M.canaries_ok()):
+                    rec.violation(label + ": write outside the prepared matrix or the scratch", {})
+                    continue
+                out[(mask, off)] = pm.u8.copy()
+            L.delete_module(mod)
+        ref = out.get((MASK_GENERIC, 0))
+        for key, v in out.items():
+            if ref is not None and not np.array_equal(v, ref):
+                rec.violation("vmp_prepare_contiguous N=%d %dx%d: the prepared bytes under mask %d at +%d differ from the portable ones" % (
+                    n, nrows, ncols, key[0], key[1]), {"N": n, "nrows": nrows, "ncols": ncols})
+            else:
+                ok += 1
+    rec.data["ok"] = ok
+
+
 def drive_znx(rec, quick):
     """znx add / sub / negate and rnx divide: ref and AVX, every nn down to 1, misaligned, extremal, in place"""
     rng = random.Random(rec.seed + 13)
@@ -217,4 +256,7 @@ def run(chk, replay=None):
                        timeout=2400, nproc=6)
     chk.traces += sum(d["ok"] for d in pr if d)
     chk.cov["programs_identical_under_both_dispatches"] = sum(d["ok"] for d in pr if d)
+    from common import isolated
+    db = isolated(chk, "large prepared matrices under both dispatch configurations", drive_big_prepare, (quick,), timeout=1200)
+    chk.traces += db["ok"] if db else 0
     chk.cov["rule"] = "one case = (kind, m, parameter, mask) / (kernel, variant, n, aliasing, value class) / (API call, mask, layout class)"
